@@ -327,6 +327,23 @@ func (s *scLife) Actions(w *World) []Action {
 			}
 		}})
 	}
+	if w.disk != nil && w.cfg.Faults && (s.prop == "C05" || s.prop == "C13") {
+		// the next write of the checkpoint file fails: disk full (file already truncated), I/O error (file
+		// untouched), short write (half of the new content)
+		w.mu.Lock()
+		armed := w.disk.failOp != ""
+		w.mu.Unlock()
+		if !armed {
+			for _, kind := range []string{"enospc", "eio", "short"} {
+				kind := kind
+				acts = append(acts, Action{ID: "diskfail|" + kind, W: 1, Do: func() {
+					w.mu.Lock()
+					w.disk.failOp = kind
+					w.mu.Unlock()
+				}})
+			}
+		}
+	}
 	live := 0
 	for _, m := range w.members {
 		if !m.crashed && !m.stopped {
@@ -343,6 +360,11 @@ func (s *scLife) Actions(w *World) []Action {
 }
 
 func (s *scLife) OnQuiesce(w *World) {
+	if w.disk != nil {
+		w.mu.Lock()
+		w.disk.failOp = "" // an armed fault that found no write does not fire in the fault-free phase
+		w.mu.Unlock()
+	}
 	// a crashed group is restarted so that the resume position can be judged
 	live := 0
 	for _, m := range w.members {
